@@ -10,3 +10,4 @@ import Stingray.Props.C04
 import Stingray.Props.C01
 import Stingray.Props.C06
 import Stingray.Props.C10
+import Stingray.Props.C07
